@@ -551,6 +551,19 @@ Section Literals.
 Variable sch : schema.
 Variable tt : N.
 Hypothesis Hwf : schema_wf sch = true.
+Hypothesis Hex : schema_explicit sch = true.
+
+(* with presence everywhere, everything that is set is on the wire *)
+Lemma on_wire_explicit md m : on_wire (msg_fields sch md) m = m.
+Proof.
+  unfold on_wire. induction m as [|[n v] r IH]; [reflexivity|]. cbn [filter fst snd].
+  assert (Hz : implicit_zero (msg_fields sch md) n v = false).
+  { unfold implicit_zero. destruct (find (fun f => N.eqb (fnum f) n) (msg_fields sch md)) as [f|] eqn:Ef; [|reflexivity].
+    apply find_some in Ef. destruct Ef as [Hin _].
+    pose proof (all_fields_msg field_explicit sch md f Hex Hin) as He. unfold field_explicit in He.
+    destruct (fimplicit f); [discriminate|reflexivity]. }
+  rewrite Hz. cbn [negb]. rewrite IH. reflexivity.
+Qed.
 
 Lemma schema_wf_all : all_fields field_wf sch = true.
 Proof. exact Hwf. Qed.
@@ -590,7 +603,7 @@ Proof.
   induction fs as [|[nm fv1] r IH]; intros m had flag ov es Hall H Hhad; cbn [lit_loop] in H; cbn [spec_lit_loop].
   - destruct had.
     + inversion H; subst. specialize (Hhad eq_refl). destruct es; [congruence|left; discriminate].
-    + inversion H; subst. destruct es; [split; [reflexivity|]; eauto|left; discriminate].
+    + inversion H; subst. rewrite on_wire_explicit. destruct es; [split; [reflexivity|]; eauto|left; discriminate].
   - inversion Hall as [|? ? Hp Hr]; subst. cbn [snd] in Hp.
     pose proof (lit_field_spec md nm) as Hlf.
     destruct (lit_field sch md nm) as [[ffld foreign]|x].
@@ -840,7 +853,7 @@ Proof.
     + (* the last part *)
       destruct (set_option_field sch tt (msg_fields sch md) m fld v false) as [m2 e2] eqn:Es.
       inversion H; subst m' es. clear H. unfold set_option_field in Es.
-      pose proof (set_field_agree _ _ _ _ _ _ _ _ Hfw (stmt_value_agree sch tt Hwf v false fld Hlex) Es) as Hb.
+      pose proof (set_field_agree _ _ _ _ _ _ _ _ Hfw (stmt_value_agree sch tt Hwf Hex v false fld Hlex) Es) as Hb.
       unfold spec_from. cbn [resolve_path]. rewrite El. cbn [forallb andb].
       destruct (target_ok tt fld) eqn:Et; cbn [negb].
       2:{ assert (Hu : check_field_usage tt fld <> []).
